@@ -11,6 +11,7 @@ CONSTANTS
   TornTailFails = TRUE
   RoaringTwoWrites = TRUE
   RowOpAsync = TRUE
+  MultiSeparateWrites = TRUE
   Contentless = FALSE
 INIT Init
 NEXT Next
